@@ -279,6 +279,9 @@ impl<H: Hasher> BatchMerkleProof<H> {
             return Err(MerkleTreeError::InvalidProof);
         }
 
+        // make sure the indexes are in range and distinct before they are offset into the tree
+        let index_map = super::map_indexes(indexes, self.depth as usize)?;
+
         let mut partial_tree_map = BTreeMap::new();
 
         for (&i, leaf) in indexes.iter().zip(self.leaves.iter()) {
@@ -290,7 +293,6 @@ impl<H: Hasher> BatchMerkleProof<H> {
 
         // replace odd indexes, offset, and sort in ascending order
         let original_indexes = indexes;
-        let index_map = super::map_indexes(indexes, self.depth as usize)?;
         let indexes = super::normalize_indexes(indexes);
         if indexes.len() != self.nodes.len() {
             return Err(MerkleTreeError::InvalidProof);
